@@ -192,6 +192,19 @@ def run_case(case):
                 if dst_sharded:
                     sc["sharding"] = shardlib.sharding_of(
                         shardlib.gen_config(rnd, "quick") if per_scale_dst else dcfg)
+            # the destination describes its scales in its own order, or only some of them:
+            # scales are identified by key
+            if len(dinfo["scales"]) > 1 and not many:
+                how = rnd.choice(["same", "same", "reversed", "subset", "rotated"])
+                if how == "reversed":
+                    dinfo["scales"].reverse()
+                elif how == "rotated":
+                    dinfo["scales"] = dinfo["scales"][1:] + dinfo["scales"][:1]
+                elif how == "subset":
+                    del dinfo["scales"][0]
+                if how != "same":
+                    obs["destination_scale_lists_reordered_or_partial"] = 1
+            dst_keys = {sc["key"] for sc in dinfo["scales"]}
             os.makedirs(dst)
             with open(os.path.join(dst, "info"), "w") as f:
                 json.dump(dinfo, f)
@@ -219,6 +232,8 @@ def run_case(case):
                f"{'sharded' if dst_sharded else 'plain'} args {args}")
         before = shardlib.tree_digest(src)[0]
         sdata, _ = _read_all(np, src)
+        if dst_mode != "copy":
+            sdata = {k: a for k, a in sdata.items() if k[0] in dst_keys}
         from harness import cli
         report = os.path.join(top, "child-monitors.jsonl")
         rc, tail, _out = cli.run("convert_chunks", [*args, src_url, dst], report=report,
@@ -300,6 +315,8 @@ def gates(obs, tier):
         "encoding_changes": obs.get("encoding_change", 0) > 10,
         "multi_scale": obs.get("scales", 0) > obs.get("conversions", 0),
         "destinations_with_more_than_64_shards": obs.get("many_shards_destinations", 0) > 0,
+        "destination_scale_lists_reordered_or_partial": obs.get(
+            "destination_scale_lists_reordered_or_partial", 0) > 5,
         "destinations_with_per_scale_sharding": obs.get(
             "destinations_with_per_scale_sharding", 0) > 5,
         "monitors_active_inside_the_command_processes": obs.get("child_processes", 0) > 50
